@@ -1090,13 +1090,13 @@ def run(ctx):
     if not ctx.replay:
         if mode == "rewrite":
             mc.append(ctx.tlc("LayoutFSMC", "C07_mc_quick.cfg", timeout=900,
-                              label="60 scenarios, crash at every point outside the marker rewrite window + retry"))
+                              label="61 scenarios, crash at every point outside the marker rewrite window + retry"))
             s4 = ctx.tlc("LayoutFSMC", "C07_mc_s4.cfg", allow_violation=True, timeout=900,
                          label="populated layouts, crash inside the marker rewrite window (counterexample expected: S4)")
             mc.append(s4)
         else:
             mc.append(ctx.tlc("LayoutFSMC", "C07_mc_fixed.cfg", timeout=900,
-                              label="60 scenarios, marker written only when missing/unreadable, crash anywhere + retry"))
+                              label="61 scenarios, marker written only when missing/unreadable, crash anywhere + retry"))
             s4 = None
         rc_ = ctx.tlc("LayoutFSMC", "C07_mc_refcopyq%s.cfg" % ("" if mode == "rewrite" else "_fixed"),
                       allow_violation=True, timeout=900,
